@@ -886,3 +886,4 @@ EXPLANATION += (' Round 7: ' + 'ESC/rejection-scenarios (REJECTIONS table: every
 EXPLANATION += (' Rounds 9-10: ' + "FRAME: keyword arguments of add(...) are held to the same table as field-wise stores; stored defaults are folded through the reaching assignment; FRAME/single-at-zero reads a sorted view of the argument's list as the copy's list.")
 EXPLANATION += (' Round 11: ' + 'ESC/change-is-exact (no tolerance on the way to the multiple-tempo / multiple-time-signature rejections); STRETCH/fields-named shared from C13.')
 EXPLANATION += (' Round 12: ' + 'PAIR/every-exit-quantizes; FRAME/every-annotation-quantized.')
+EXPLANATION += (' Round 14: ' + 'ROUND/no-rounding-before-the-floor.')
